@@ -54,6 +54,60 @@ def leValue : List Nat → Nat
   | [] => 0
   | b :: bs => b + 256 * leValue bs
 
+/-! ### Avro decimal payloads: big-endian two's-complement unscaled integers -/
+
+/-- the `while k < be.len() && be[k] == sign_byte { k += 1 }` loop of `minimal_twos_complement` -/
+def countLeading (s : Nat) : List Nat → Nat
+  | [] => 0
+  | b :: bs => if b = s then countLeading s bs + 1 else 0
+
+/-- `minimal_twos_complement(be)`: drop leading sign bytes as long as the remaining first byte
+still carries the sign bit (`((be[k] ^ sign_byte) & 0x80) == 0`), keeping at least one byte -/
+def minimalTwosComplement (be : List Nat) : List Nat :=
+  match be with
+  | [] => []
+  | b0 :: _ =>
+    let signByte := if b0 &&& M_SIGN_MASK ≠ 0 then M_NEG_BYTE else M_POS_BYTE
+    let k := countLeading signByte be
+    if k = 0 then be
+    else if k = be.length then be.drop (be.length - M_KEEP_ONE)
+    else
+      let drop := if ((be.getD k 0 ^^^ signByte) &&& M_DROP_MASK) = 0 then k else k - 1
+      be.drop drop
+
+/-- `write_sign_extended(out, src_be, n)`: exactly `n` bytes; `none` = the overflow error -/
+def writeSignExtended (src : List Nat) (n : Nat) : Option (List Nat) :=
+  let len := src.length
+  if len = n then Option.some src
+  else
+    let signByte := if len > 0 ∧ src.headD 0 &&& X_SIGN_MASK ≠ 0 then 0xFF else 0x00
+    if len > n then
+      let extra := len - n
+      if n = 0 ∧ src.all (· == signByte) then Option.some []
+      else if (src.take extra).any (· != signByte) ∨ ((src.getD extra 0 ^^^ signByte) &&& X_TRUNC_MASK) ≠ 0 then Option.none
+      else Option.some (src.drop extra)
+    else Option.some (List.replicate (n - len) signByte ++ src)
+
+/-- `sign_cast_to::<N>(raw)` of the reader: sign-extend, or validate-and-truncate, to `N` bytes -/
+def signCast (N : Nat) (raw : List Nat) : Option (List Nat) :=
+  let len := raw.length
+  if len = N then Option.some raw
+  else
+    let first := raw.headD 0
+    let signByte := if first &&& S_SIGN_MASK = 0 then 0x00 else S_NEG_BYTE
+    if len > N then
+      let extra := len - N
+      if (raw.take extra).any (· != signByte) then Option.none
+      else if N > 0 ∧ ((raw.getD extra 0 ^^^ signByte) &&& S_TRUNC_MASK) ≠ 0 then Option.none
+      else Option.some (raw.drop extra)
+    else Option.some (List.replicate (N - len) signByte ++ raw)
+
+/-- the integer a big-endian two's-complement byte string denotes (`iN::from_be_bytes` after
+sign extension): first byte signed, the others unsigned digits base 256 -/
+def beSigned : List Nat → Int
+  | [] => 0
+  | b :: bs => bs.foldl (fun (a : Int) (x : Nat) => a * 256 + (x : Int)) (if b ≥ 128 then (b : Int) - 256 else (b : Int))
+
 /-- Avro schema tree as the writer's `FieldPlan` / the reader's `Decoder` see it.  A map
 `{"type":"map","values":V}` is `array (record [string, V])`: `MapEncoder::encode_map_entries`
 emits exactly key-then-value per entry inside `encode_blocked_range`, and `Decoder::Map` reads
@@ -66,6 +120,9 @@ inductive Schema where
   | union (branches : List Schema)
   | record (fields : List Schema)
   | array (item : Schema)
+  /-- Avro `decimal`: `fixedSize = none` is `bytes`-backed, `some n` is `fixed(n)`-backed; `width` is
+  the byte width of the Arrow decimal on both sides (16 for Decimal128, 32 for Decimal256) -/
+  | decimal (fixedSize : Option Nat) (width : Nat)
 
 /-- value trees; `bytes` serves both `bytes` and `string`, `int` both `int` and `enum`,
 `list` both records (fields in order) and arrays (items) -/
@@ -82,6 +139,8 @@ inductive Value where
   | some (v : Value)
   | union (idx : Nat) (v : Value)
   | list (vs : List Value)
+  /-- a decimal's unscaled value as its `width` big-endian two's-complement bytes (`to_be_bytes`) -/
+  | dec (be : List Nat)
 
 /-- `Schema.map v` -/
 def Schema.map (v : Schema) : Schema := .array (.record [.string, v])
@@ -99,6 +158,9 @@ def encode : Schema → Value → List Nat
   | .bytes, .bytes bs => encodeLong (BitVec.ofNat 64 bs.length) ++ bs -- write_len_prefixed
   | .string, .bytes bs => encodeLong (BitVec.ofNat 64 bs.length) ++ bs
   | .fixed _, .fixed bs => bs                                         -- FixedEncoder
+  | .decimal Option.none _, .dec be =>                                -- DecimalEncoder, bytes-backed
+    encodeLong (BitVec.ofNat 64 (minimalTwosComplement be).length) ++ minimalTwosComplement be
+  | .decimal (Option.some n) _, .dec be => (writeSignExtended be n).getD []   -- fixed(n)-backed
   | .nullable nf _, .none => [branchByte nf true]                     -- write_optional_index(true)
   | .nullable nf s, .some v => branchByte nf false :: encode s v
   | .union bs, .union i v =>                                          -- UnionEncoder::encode
@@ -245,6 +307,14 @@ def decode : Schema → List Nat → Option (Value × List Nat)
   | .bytes, bs => (getBytes bs).map (fun p => (.bytes p.1, p.2))
   | .string, bs => (getBytes bs).map (fun p => (.bytes p.1, p.2))
   | .fixed n, bs => (getFixed n bs).map (fun p => (.fixed p.1, p.2))
+  | .decimal Option.none w, bs =>                                      -- read_decimal_bytes_be, size = None
+    match getBytes bs with
+    | Option.none => Option.none
+    | Option.some (raw, rest) => (signCast w raw).map (fun b => (.dec b, rest))
+  | .decimal (Option.some n) w, bs =>                                  -- size = Some(n)
+    match getFixed n bs with
+    | Option.none => Option.none
+    | Option.some (raw, rest) => (signCast w raw).map (fun b => (.dec b, rest))
   | .nullable nf s, bs =>                                              -- NullablePlan::ReadTag
     match readVlq bs with
     | Option.none => Option.none
@@ -301,6 +371,10 @@ def wt : Schema → Value → Bool
   | .bytes, .bytes bs => decide (bs.length < 2 ^ 63)
   | .string, .bytes bs => decide (bs.length < 2 ^ 63)
   | .fixed n, .fixed bs => decide (bs.length = n)
+  | .decimal Option.none w, .dec be =>
+    decide (be.length = w) && decide (1 ≤ w) && decide (w < 2 ^ 63) && be.all (· < 256)
+  | .decimal (Option.some n) w, .dec be =>
+    decide (be.length = w) && decide (1 ≤ w) && decide (1 ≤ n) && be.all (· < 256) && (writeSignExtended be n).isSome
   | .nullable _ _, .none => true
   | .nullable _ s, .some v => wt s v
   | .union bs, .union i v =>
